@@ -5,7 +5,7 @@ From Coq Require Import List ZArith Bool Lia.
 Import ListNotations.
 From Goat Require Import Model.Client Model.Protocol Proofs.ClientBase Proofs.ProtocolClient.
 From Goat Require Model.Server Model.Sys Proofs.SysC01.
-From Goat Require Import Proofs.ServerOrigin Proofs.SysLog Proofs.ServerWriter Proofs.ServerProto.
+From Goat Require Import Proofs.ServerOrigin Proofs.SysLog Proofs.ServerWriter Proofs.ServerProto Proofs.SysCancel.
 Open Scope Z_scope.
 
 (* Client half. For EVERY run of the client model (any peer, any interleaving of the internal rules with
@@ -78,6 +78,18 @@ Theorem C06_reset_order : forall nw ls (s : Server.state) i pre r post,
   forall t, In t post -> is_trailer t = false.
 Proof. exact ServerProto.C06_reset_order_l. Qed.
 Print Assumptions C06_reset_order.
+
+(* C06_sys: end to end, on the product model Model/Sys.v (client x server x two FIFO wires). For every run of the system
+   with API-conformant users and every stream call of the client that was not aborted: the envelopes the SERVER writes
+   for the call's id are accepted by proto_s2c and the envelopes the CLIENT writes for it by proto_c2s. (What the
+   client puts on the wire satisfies [sconf] - lemma C06_sys_sconf - and the server reads a prefix of it.) *)
+Theorem C06_sys : forall pol ls (s : Sys.state) c k,
+  Sys.lrun pol Sys.init ls = Some s -> api_ok (Sys.proj_c pol Sys.init ls) ->
+  nth_error (calls (Sys.cl s)) c = Some k -> k_pc k = POpen -> l_abort k = false ->
+  proto_s2c false (proj (k_id k) (map pf (written (Server.log (Sys.sv s))))) = true /\
+  forall rt, proto_c2s (proj (k_id k) (map (lift rt) (wr (Sys.cl s)))) = true.
+Proof. exact SysCancel.C06_sys_l. Qed.
+Print Assumptions C06_sys.
 
 (* NOT PROVED (checked on the real server by the monitor only): the unary half of C06_server (exactly one response
    with header, trailer and a body or a non-OK status: needs a hypothesis on unary handler programs - a reply or an
